@@ -269,6 +269,15 @@ func evalConstCmp(op token.Token, x, y ssa.Value) (val, known bool) {
 // so a branch like `if i > 0` is decided per iteration.  The path is infeasible if it takes an
 // edge whose condition evaluates to the opposite.
 func (p Path) InfeasibleByEval() bool {
+	return !p.WalkEval(nil)
+}
+
+// WalkEval walks the path with the finite-domain evaluator: phis take the value of the edge the
+// path came through, branches whose condition evaluates must agree with the branch taken, interval
+// facts about len(x) and opaque booleans are remembered from the branches taken. visit (optional)
+// is called for every instruction with the environment of that moment. It returns false when the
+// path is infeasible.
+func (p Path) WalkEval(visit func(bi int, in ssa.Instruction, e *miniEnv)) bool {
 	e := &miniEnv{vals: map[ssa.Value]int64{}}
 	lens := lenFacts{}
 	for i, b := range p.Blocks {
@@ -310,15 +319,20 @@ func (p Path) InfeasibleByEval() bool {
 				}
 			}
 		}
+		if visit != nil {
+			for _, in := range b.Instrs {
+				visit(i, in, e)
+			}
+		}
 		if i+1 < len(p.Blocks) {
 			if iff, ok := b.Instrs[len(b.Instrs)-1].(*ssa.If); ok && b.Succs[0] != b.Succs[1] {
 				took := p.Blocks[i+1] == b.Succs[0]
 				if c, ok := e.eval(iff.Cond, 0); ok {
 					if took != (c != 0) {
-						return true
+						return false
 					}
 				} else if !lens.assume(e, iff.Cond, took) {
-					return true
+					return false
 				} else if opaqueBool(iff.Cond) {
 					// the branch taken fixes the value of an opaque boolean (a call result)
 					// until its defining block runs again
@@ -327,7 +341,7 @@ func (p Path) InfeasibleByEval() bool {
 			}
 		}
 	}
-	return false
+	return true
 }
 
 // opaqueBool: a boolean the evaluator cannot compute (call result, extract, load, parameter).
@@ -337,6 +351,9 @@ func opaqueBool(v ssa.Value) bool {
 	}
 	switch v.(type) {
 	case *ssa.Call, *ssa.Extract, *ssa.Parameter, *ssa.Lookup, *ssa.TypeAssert:
+		return true
+	case *ssa.Phi:
+		// a phi keeps its value until its block is entered again (WalkEval resets it there)
 		return true
 	}
 	return false
